@@ -1,4 +1,4 @@
-use alloc::vec::Vec;
+use alloc::{vec, vec::Vec};
 use nom::bytes::streaming::take;
 use nom::combinator::{complete, map_parser};
 use nom::error::{make_error, ErrorKind};
@@ -102,7 +102,7 @@ pub fn parse_tls_record_with_header<'i>(i:&'i [u8], hdr:&TlsRecordHeader ) -> IR
         TlsRecordType::ChangeCipherSpec => many1(complete(parse_tls_message_changecipherspec))(i),
         TlsRecordType::Alert            => many1(complete(parse_tls_message_alert))(i),
         TlsRecordType::Handshake        => many1(complete(parse_tls_message_handshake))(i),
-        TlsRecordType::ApplicationData  => many1(complete(parse_tls_message_applicationdata))(i),
+        TlsRecordType::ApplicationData  => parse_tls_message_applicationdata(i).map(|(rem, msg)| (rem, vec![msg])),
         TlsRecordType::Heartbeat        => complete(|d| parse_tls_message_heartbeat(d, hdr.len))(i),
         _                               => Err(Err::Error(make_error(i, ErrorKind::Switch)))
     }
